@@ -22,11 +22,13 @@ import (
 	"net"
 	"net/http"
 	"net/url"
+	"strconv"
 	"strings"
 	"sync/atomic"
 	"time"
 
 	"github.com/tmpim/casket/caskethttp/httpserver"
+	"golang.org/x/net/http/httpguts"
 )
 
 // Proxy represents a middleware instance that can proxy requests.
@@ -268,6 +270,15 @@ func (p Proxy) ServeHTTP(w http.ResponseWriter, r *http.Request) (int, error) {
 			downHeaderUpdateFn = createRespHeaderUpdateFn(host.DownstreamHeaders, replacer, host.DownstreamHeaderReplacements)
 		}
 
+		// A request the transport would refuse to put on the wire (a
+		// field value with a line break copied in by a header rule, a
+		// trailer announced with an invalid name, a Host that is no
+		// host) never reaches the backend: it is the request that is
+		// wrong, so no backend is blamed for it and none is tried.
+		if err := sendable(outreq); err != nil {
+			return http.StatusBadRequest, err
+		}
+
 		// Before we retry the request we have to make sure
 		// that the body is rewound to it's beginning.
 		if bb, ok := outreq.Body.(*bufferedBody); ok {
@@ -341,6 +352,39 @@ func (p Proxy) ServeHTTP(w http.ResponseWriter, r *http.Request) (int, error) {
 	}
 
 	return http.StatusBadGateway, backendErr
+}
+
+// sendable reports why net/http's transport would refuse to send
+// req, before it has contacted anybody.
+func sendable(req *http.Request) error {
+	for k, vv := range req.Header {
+		if !httpguts.ValidHeaderFieldName(k) {
+			return errors.New("invalid header field name " + strconv.Quote(k))
+		}
+		for _, v := range vv {
+			if !httpguts.ValidHeaderFieldValue(v) {
+				return errors.New("invalid value for header field " + strconv.Quote(k))
+			}
+		}
+	}
+	for k, vv := range req.Trailer {
+		if !httpguts.ValidHeaderFieldName(k) {
+			return errors.New("invalid trailer field name " + strconv.Quote(k))
+		}
+		for _, v := range vv {
+			if !httpguts.ValidHeaderFieldValue(v) {
+				return errors.New("invalid value for trailer field " + strconv.Quote(k))
+			}
+		}
+	}
+	host := req.Host
+	if host == "" && req.URL != nil {
+		host = req.URL.Host
+	}
+	if _, err := httpguts.PunycodeHostPort(host); err != nil {
+		return errors.New("invalid host " + strconv.Quote(host) + ": " + err.Error())
+	}
+	return nil
 }
 
 // bodyErrorRecorder remembers an error (other than io.EOF) that reading
